@@ -142,7 +142,7 @@ package channel
 //@   requires RI(c.Q) && c.PromptSearchDepth >= 0
 //@   modifies wire, rd, c.Q.queue, c.Q.depth, chan(c.Q.depthChan), echoed, optlog, quiet, alloc()
 //@   chaninv cr v => v != nil && (v.err == nil ==> wire == old(wire) ++ input ++ c.ReturnChar)
-//@   at call WithTimeout#1 assert #operation-timeout-threaded arg1 == (op.Timeout == -1 ? c.TimeoutOps : (op.Timeout == 0 ? 86400 * 1000000000 : op.Timeout))
+//@   at call! WithTimeout#1 assert #operation-timeout-threaded arg1 == (op.Timeout == -1 ? c.TimeoutOps : (op.Timeout == 0 ? 86400 * 1000000000 : op.Timeout))
 //@   ensures #nil-payload-on-error result.1 != nil ==> len(result.0) == 0
 //@   ensures #sent-input-then-one-return result.1 == nil ==> wire == old(wire) ++ input ++ c.ReturnChar
 //@   at return assert #timeout-class result.1 != nil && r != nil && isErr(r.err, context.DeadlineExceeded) ==> isErr(result.1, util.ErrTimeoutError)
@@ -152,7 +152,7 @@ package channel
 //@   requires RI(c.Q) && c.PromptSearchDepth >= 0
 //@   modifies wire, rd, c.Q.queue, c.Q.depth, chan(c.Q.depthChan), chan(cr), echoed, quiet, err, alloc()
 //@   ensures #exactly-one-result chlen(cr) == old(chlen(cr)) + 1
-//@   at call WriteReturn#1 assert #return-only-after-echo echoed == input && wire == old(wire) ++ input
+//@   at call! WriteReturn#1 assert #return-only-after-echo echoed == input && wire == old(wire) ++ input
 
 // ---- C12: interactive dialogues are paced by the device; C11: hidden inputs are written redacted -----------------------
 
@@ -178,12 +178,12 @@ package channel
 //@   chaninv cr v => v != nil && RI(c.Q)
 //@   modifies wire, rd, c.Q.queue, c.Q.depth, chan(c.Q.depthChan), chan(cr), echoed, quiet, alloc()
 //@   ensures #exactly-one-result chlen(cr) == old(chlen(cr)) + 1
-//@   at call Write#1 assert #input-only-after-previous-prompt i == 0 || quiet
-//@   at call Write#1 assert #hidden-inputs-are-redacted arg1 == e.HideInput
-//@   at call Write#1 assert #no-input-after-a-complete-pattern-matched i > 0 && len(op.CompletePatterns) > 0 ==> noneMatches(op.CompletePatterns, pb)
+//@   at call! Write#1 assert #input-only-after-previous-prompt i == 0 || quiet
+//@   at call! Write#1 assert #hidden-inputs-are-redacted arg1 == e.HideInput
+//@   at call! Write#1 assert #no-input-after-a-complete-pattern-matched i > 0 && len(op.CompletePatterns) > 0 ==> noneMatches(op.CompletePatterns, pb)
 //@   at call dyn#1 assert #hidden-inputs-not-awaited e.ChannelResponse != "" && !e.HideInput
 //@   flows [C11] #event-input-goes-only-to-write-and-the-echo-wait e.ChannelInput only to Write#1.arg0, dyn#1.arg1
-//@   at call ReadUntilAnyPrompt#1 assert #waits-for-the-expected-response-or-else-the-prompt arg1 === op.CompletePatterns ++ refs(e.ChannelResponse != "" ? compiled(e.ChannelResponse) : c.PromptPattern)
+//@   at call! ReadUntilAnyPrompt#1 assert #waits-for-the-expected-response-or-else-the-prompt arg1 === op.CompletePatterns ++ refs(e.ChannelResponse != "" ? compiled(e.ChannelResponse) : c.PromptPattern)
 //@   loop 1 invariant rangeindex < len(events) && RI(c.Q) && chlen(cr) == old(chlen(cr))
 //@   loop 1 invariant rangeindex >= 0 ==> quiet && i == rangeindex && (len(op.CompletePatterns) > 0 && rangeindex < len(events) - 1 ==> noneMatches(op.CompletePatterns, pb))
 //@   loop 2 invariant rangeindex#2 < len(op.CompletePatterns) && RI(c.Q) && chlen(cr) == old(chlen(cr)) && quiet && i == rangeindex && i < len(events) - 1
@@ -206,10 +206,10 @@ package channel
 //@   requires RI(c.Q)
 //@   modifies wire, rd, c.Q.queue, c.Q.depth, chan(c.Q.depthChan), quiet, alloc()
 //@   ensures #success-means-prompt result != nil && result.err == nil ==> reMatch(c.PromptPattern, result.b)
-//@   at call WriteAndReturn#1 assert #password-only-to-its-prompt-redacted reMatch(c.PasswordPattern, b) && !reMatch(c.PromptPattern, b) && arg0 == p && arg1 && pCount <= 2
-//@   at call WriteAndReturn#2 assert #passphrase-only-to-its-prompt-redacted reMatch(c.PassphrasePattern, b) && !reMatch(c.PasswordPattern, b) && !reMatch(c.PromptPattern, b) && arg0 == pp && arg1 && ppCount <= 2
+//@   at call! WriteAndReturn#1 assert #password-only-to-its-prompt-redacted reMatch(c.PasswordPattern, b) && !reMatch(c.PromptPattern, b) && arg0 == p && arg1 && pCount <= 2
+//@   at call! WriteAndReturn#2 assert #passphrase-only-to-its-prompt-redacted reMatch(c.PassphrasePattern, b) && !reMatch(c.PasswordPattern, b) && !reMatch(c.PromptPattern, b) && arg0 == pp && arg1 && ppCount <= 2
 //@   at return assert #third-prompt-is-an-auth-error pCount > 2 || ppCount > 2 ==> result != nil && isErr(result.err, util.ErrAuthError)
-//@   at call sshMessageHandler#1 assert #failure-messages-are-searched-in-everything-read-since-the-last-credential arg0 == b
+//@   at call! sshMessageHandler#1 assert #failure-messages-are-searched-in-everything-read-since-the-last-credential arg0 == b
 //@   flows [C11] #password-goes-only-to-the-redacted-write p only to WriteAndReturn#1.arg0
 //@   flows [C11] #passphrase-goes-only-to-the-redacted-write pp only to WriteAndReturn#2.arg0
 //@   loop 1 invariant RI(c.Q) && 0 <= pCount && pCount <= 2 && 0 <= ppCount && ppCount <= 2
@@ -218,8 +218,8 @@ package channel
 //@   requires RI(c.Q) && c.PromptSearchDepth >= 0
 //@   modifies wire, rd, c.Q.queue, c.Q.depth, chan(c.Q.depthChan), quiet, alloc()
 //@   ensures #success-means-prompt result != nil && result.err == nil ==> reMatch(c.PromptPattern, result.b)
-//@   at call WriteAndReturn#1 assert #username-written-redacted-at-most-twice arg0 == u && arg1 && uCount <= 2
-//@   at call WriteAndReturn#2 assert #password-written-redacted-at-most-twice arg0 == p && arg1 && pCount <= 2
+//@   at call! WriteAndReturn#1 assert #username-written-redacted-at-most-twice arg0 == u && arg1 && uCount <= 2
+//@   at call! WriteAndReturn#2 assert #password-written-redacted-at-most-twice arg0 == p && arg1 && pCount <= 2
 //@   flows [C11] #password-goes-only-to-the-redacted-write p only to WriteAndReturn#2.arg0
 //@   at return assert #third-prompt-is-an-auth-error uCount > 2 || pCount > 2 ==> result != nil && isErr(result.err, util.ErrAuthError)
 //@   loop 1 invariant RI(c.Q) && 0 <= uCount && uCount <= 2 && 0 <= pCount && pCount <= 2
@@ -273,7 +273,7 @@ package channel
 //@   ensures RI(c.Q)
 //@   modifies wire, rd, sent, c.Q.queue, c.Q.depth, chan(c.Q.depthChan), quiet, echoed, optlog, alloc()
 //@   chaninv cr v => v != nil && RI(c.Q)
-//@   at call WithTimeout#1 assert #operation-timeout-threaded arg1 == (op.Timeout == -1 ? c.TimeoutOps : (op.Timeout == 0 ? 86400 * 1000000000 : op.Timeout))
+//@   at call! WithTimeout#1 assert #operation-timeout-threaded arg1 == (op.Timeout == -1 ? c.TimeoutOps : (op.Timeout == 0 ? 86400 * 1000000000 : op.Timeout))
 //@   ensures #nil-payload-on-error result.1 != nil ==> len(result.0) == 0
 //@   at return assert #timeout-class result.1 != nil && r != nil && isErr(r.err, context.DeadlineExceeded) ==> isErr(result.1, util.ErrTimeoutError)
 
@@ -285,10 +285,10 @@ package channel
 //@   maintains RI(c.Q)
 //@   requires c.Errs != c.Q.depthChan
 //@   modifies c.readLoopExited, c.Q.queue, c.Q.depth, chan(c.Q.depthChan), chan(c.Errs), errsAtHead, chunk, alloc()
-//@   at call Enqueue#1 assert [C01] #what-is-queued-is-the-chunk-without-carriage-returns-and-escape-sequences arg0 == (contains(replaceAll(chunk, "\r", ""), "\x1b") ? stripANSI(replaceAll(chunk, "\r", "")) : replaceAll(chunk, "\r", ""))
+//@   at call! Enqueue#1 assert [C01] #what-is-queued-is-the-chunk-without-carriage-returns-and-escape-sequences arg0 == (contains(replaceAll(chunk, "\r", ""), "\x1b") ? stripANSI(replaceAll(chunk, "\r", "")) : replaceAll(chunk, "\r", ""))
 //@   loop 1 invariant RI(c.Q) && c.Errs != c.Q.depthChan
 //@   loop 1 set errsAtHead = chlen(c.Errs)
 //@   ensures #exit-is-recorded c.readLoopExited
 //@   at call Sleep#1 assert #every-read-error-is-handed-over-exactly-once chlen(c.Errs) == errsAtHead + 1
-//@   at call Enqueue#1 assert #only-chunks-read-without-error-are-queued err == nil
-//@   at call Enqueue#1 assert #nothing-handed-over-for-a-good-chunk chlen(c.Errs) == errsAtHead
+//@   at call! Enqueue#1 assert #only-chunks-read-without-error-are-queued err == nil
+//@   at call! Enqueue#1 assert #nothing-handed-over-for-a-good-chunk chlen(c.Errs) == errsAtHead
